@@ -369,9 +369,13 @@ def run(tier):
     # the two fixed-width ASCII fields of the FILE-HEADER, with values assigned after construction
     from harness import eflr as _eflr
     _eflr.late_header_stream(chk, model, bres, rng('C06', 'file-header-late'), 80 if tier == 'quick' else 800)
+    from harness.filegen import ATTRS
+    # text and numerals given to the attributes that take either (PARAMETER.VALUES, AXIS.COORDINATES): what is written
+    # under a text code is the text, what is written under a number code is the numeral's value - 'INF', 'nan', '1E2' are text
+    convert.run_stream(chk, model, bres, rng('C06', 'maybe-numeric'), 60 if tier == 'quick' else 500, ATTRS, stream='maybe-numeric',
+                       hc_share=0.0, only=lambda st_, row_, conv_: conv_.startswith('maybeNumeric'))
     # numbers of other types than int / float (numpy scalars, Fraction, Decimal) given to the numeric attributes: never
     # cut to fit an integer code; what is accepted decodes to the same number
-    from harness.filegen import ATTRS
     convert.run_numberlike(chk, model, bres, rng('C06', 'number-like'), 800 if tier == 'quick' else 8000, ATTRS)
     chk.exhaustive = False
     return finish(chk, bres, THEOREMS,
